@@ -40,8 +40,20 @@ def extract(ctx):
                 'R13b try/catch(...) -> flag test': n13b, 'R2 auto iterator -> const char* (scaffold string)': n2})
     if n12 != 2 or n13b != 2 or n8 < 2 or n2 != 2:
         raise ExtractError('numfull: a must-fire rewrite did not fire as expected: %r' % log)
+    # ReadStreamCSV::readRamUnsigned (whole body) with its callee replaced by a recording stub: WHAT it hands to RamUnsignedFromString
+    csv = Source(os.path.join(ctx.repo, 'src/include/souffle/io/ReadStreamCSV.h'))
+    csv_rb, _ = csv.block(r'RamUnsigned\s+readRamUnsigned\s*\(\s*const\s+std::string&\s*element\s*,\s*std::size_t&\s*charactersRead\s*\)\s*\{', semi=False)
+    rb = strip_comments(csv_rb)
+    rb, nr = re.subn(r'\bRamUnsignedFromString\(', 'vx_ufs_rec(', rb)
+    log['R8 readRamUnsigned: RamUnsignedFromString( -> vx_ufs_rec( (recording stub; the callee has its own contract)'] = nr
+    if nr < 1:
+        raise ExtractError('readRamUnsigned: no call of RamUnsignedFromString')
+    ctx.fact("ReadStreamCSV.h: a signed column is read by RamSignedFromString(element, &charactersRead) (base 10), an unsigned one by readRamUnsigned",
+             csv.has_raw(r"case\s+'i':\s*\{\s*tuple\[inputMap\[column\]\]\s*=\s*RamSignedFromString\(element,\s*&charactersRead\);") and
+             csv.has_raw(r"case\s+'u':\s*\{\s*tuple\[inputMap\[column\]\]\s*=\s*ramBitCast\(readRamUnsigned\(element,\s*charactersRead\)\);"))
+    text = text + '\nstruct CSVScaffold {\n' + rb + '\n};\n'
     # forward declaration of isPrefix precedes its uses in the real header as well
-    ctx.write('extracted.hpp', '#include <vx_bstring.h>\n#include <stdexcept>\n#include "ramtypes.hpp"\n#include "vx_numfull.h"\nnamespace souffle {\n' + text + '\n}\n')
+    ctx.write('extracted.hpp', '#include <vx_bstring.h>\n#include <stdexcept>\n#include <cassert>\n#include "ramtypes.hpp"\n#include "vx_numfull.h"\nnamespace souffle {\n' + text + '\n}\n')
     ctx.rewrites.update(log)
     ctx.dropped += ['RamFloatFromString (numparse.fstr covers it), the other StringUtil.h helpers; std::stoul/stoi themselves (assumed contracts)']
 
@@ -59,6 +71,9 @@ def harnesses(ctx):
         Harness('numfull.signed', 'harness_s', cpp=cpp, c=c, defines=d, enforce='h_sfs', unwind=ln + 6, bounded=B, must_have=['postcondition'], timeout=1500,
                 clause='RamSignedFromString on any string: base-0 dispatch incl. negative prefixes; "0b"/"-0b" rewritten to a plain/negated binary literal; one call of std::stoi with that text and base; value and position kept',
                 funcs=['souffle::RamSignedFromString', 'souffle::isPrefix']),
+        Harness('numfull.readRamUnsigned', 'harness_rru', cpp=cpp, c=c, defines=d, enforce='h_rru', unwind=ln + 6, bounded=B, must_have=['postcondition'], timeout=1500,
+                clause='ReadStreamCSV::readRamUnsigned hands the ENTIRE field to RamUnsignedFromString exactly once (so that sign / prefix / trailing-garbage rules apply to the field), '
+                       'with base 2/16/10 by prefix, returns its value unchanged and reports its character count unchanged', funcs=['souffle::ReadStreamCSV::readRamUnsigned']),
         Harness('numfull.canparse', 'harness_can', cpp=cpp, c=c, defines=d, enforce='h_can', unwind=ln + 6, bounded=B, must_have=['postcondition'], timeout=1500,
                 clause='canBeParsedAsRamUnsigned/Signed: true iff the literal is accepted AND every character was consumed (complete literal)',
                 funcs=['souffle::canBeParsedAsRamUnsigned', 'souffle::canBeParsedAsRamSigned']),
@@ -73,9 +88,23 @@ ASSUMPTIONS = [
 TRUSTED = ['stubs/vx_bstring.h (bounded string)', 'units/numfull/vx_numfull.h', 'rewrite rules R2,R6,R8,R12,R13,R13b']
 
 MUTANTS = [
+    dict(name='readRamUnsigned narrows via short', file='src/include/souffle/io/ReadStreamCSV.h', find=r'RamSigned value = 0;', repl='short value = 0;', expect=r'numfull\.readRamUnsigned'),
+    dict(name='readRamUnsigned strips the prefix itself', file='src/include/souffle/io/ReadStreamCSV.h', find=r'value = RamUnsignedFromString\(element, &charactersRead, 16\);', repl='value = RamUnsignedFromString(element.substr(2), &charactersRead, 16); charactersRead += 2;', expect=r'numfull\.readRamUnsigned'),
     dict(name='unsigned: minus sign accepted', file=SU, find=r'if \(isPrefix\("-", str\)\) \{\s*throw std::invalid_argument\("Unsigned number can.t start with minus\."\);\s*\}', repl='', expect=r'numfull\.unsigned'),
     dict(name='unsigned: 0x dispatched to base 10', file=SU, find=r'(\} else if \(isPrefix\("0x", str\)\) \{\s*return RamUnsignedFromString\(str, position, )16', repl=r'\g<1>10', expect=r'numfull\.(unsigned|canparse)'),
     dict(name='signed: -0b strips 2 characters', file=SU, find=r'binaryNumber = "-" \+ str\.substr\(3\);', repl='binaryNumber = "-" + str.substr(2);', expect=r'numfull\.signed'),
     dict(name='isPrefix: stops one early', file=SU, find=r'return itPrefix == prefix\.end\(\);', repl='return itPrefix + 1 >= prefix.end();', expect=r'numfull\.'),
     dict(name='canBeParsedAsRamUnsigned ignores trailing garbage', file=SU, find=r'(RamUnsignedFromString\(string, &charactersRead, 0\);.*?)return charactersRead == string\.size\(\);', repl=r'\1return true;', expect=r'numfull\.canparse'),
 ]
+
+
+def replay(ctx, h, r, ins, tr):
+    """exploration replay on the real fact loader: every field up to 5 characters over a small alphabet of digits, prefixes, signs and blanks"""
+    import subprocess
+    exe = os.path.join(ctx.work, 'replay_numfull')
+    p = subprocess.run(['g++', '-std=c++17', '-O1', '-fopenmp', '-I', os.path.join(ctx.repo, 'src/include'), os.path.join(HERE, '..', '..', 'replay', 'numfull', 'explore.cpp'), '-o', exe],
+                       stdout=subprocess.PIPE, stderr=subprocess.STDOUT)
+    if p.returncode != 0:
+        return None, 'native replay build failed: ' + p.stdout.decode()[-400:]
+    q = subprocess.run([exe], stdout=subprocess.PIPE, stderr=subprocess.STDOUT, cwd=ctx.work)
+    return q.returncode == 1, 'real ReadStreamCSV on every short field: ' + q.stdout.decode().strip()[-300:]
